@@ -44,6 +44,13 @@ SettingsT(v) == /\ nSet < MaxSet /\ nSet' = nSet + 1 /\ v # m.oiws
                 /\ ~mustPD /\ mustPD' = TRUE
                 /\ \E perm \in Perms(Waiting(m)) : Do(In("settings", 0, v, FALSE, 0), perm)
                 /\ UB(<<nData, nWU, nNoise>>)
+\* Items that lost the race against the stream's cleanupStream / earlyAbortStream in the control buffer
+\* (http2Server.writeHeader / write / writeStatus check the stream state before they put the item; the
+\* deadline timer or the reader goroutine may close the stream in between).  They change nothing, so
+\* they need no budget.
+LateHdrT(s) == ServerSide /\ g.afin[s] = "closed" /\ Item(In("hdr", s, 0, FALSE, 0)) /\ UB(<<nData, nWU, nSet, nNoise>>)
+LateDataT(s) == g.afin[s] = "closed" /\ Item(In("data", s, 1, FALSE, HdrLen)) /\ UB(<<nData, nWU, nSet, nNoise>>)
+LateTrailersT(s) == ServerSide /\ g.afin[s] = "closed" /\ Item(In("trailers", s, 0, FALSE, 0)) /\ UB(<<nData, nWU, nSet, nNoise>>)
 NoiseT(k) == nNoise < MaxNoise /\ nNoise' = nNoise + 1 /\ Item(In("noise", 0, k, FALSE, 0)) /\ UB(<<nData, nWU, nSet>>)
 \* processData: obligatory after an item, otherwise only while it still has work
 PDT == /\ (mustPD \/ ~(m.sq = 0 \/ m.al = <<>>)) /\ mustPD' = FALSE /\ Do(In("pd", 0, 0, FALSE, 0), <<>>)
@@ -54,6 +61,7 @@ Next == \/ \E s \in Streams : \/ \E h \in HdrClasses : OpenT(s, h)
                               \/ \E p \in Payloads, es \in BOOLEAN : DataT(s, p, es)
                               \/ \E rst \in BOOLEAN : CleanupT(s, rst) \/ AbortT(s, rst) \/ \E h \in HdrClasses : TrailersT(s, rst, h)
                               \/ \E n \in Incs : StrWUT(s, n)
+                              \/ LateHdrT(s) \/ LateDataT(s) \/ LateTrailersT(s)
         \/ \E n \in Incs : ConnWUT(n)
         \/ \E v \in IWSs : SettingsT(v)
         \/ \E k \in 1..3 : NoiseT(k)
